@@ -1,5 +1,5 @@
 /-
-C11 — the shipped polynomial transform pairs (abel/tools/transform_pairs.py, profiles 1, 2, 3, 5, 7) are exact Abel pairs:
+C11 — the shipped polynomial transform pairs (abel/tools/transform_pairs.py, profiles 1, 2, 3, 4, 5, 7) are exact Abel pairs:
 for every 0 < x < 1 the coded `projection` expression equals 2∫₀^∞ source(√(x²+z²)) dz, the source being zero outside [0, 1).
 Derived from `C10.polynomial_abel` (the closed-form integrals of monomial pieces).
 -/
@@ -255,6 +255,111 @@ theorem profile1_pair (x : ℝ) (h0 : 0 < x) (h1 : x < 1) :
     rw [ln0_pos (by positivity), ln0_pos (by linarith)]
     norm_num [sumRange, abelC, Distr.pow]
     rw [if_neg (by linarith), Real.log_div (by positivity) h0.ne']
+    ring
+
+theorem source4_left (r : ℝ) (h : r ≤ 7 / 10) :
+    source4 r = 1 / 10 + 551 / 100 * r ^ 2 - 21 / 4 * r ^ 3 := by
+  unfold source4
+  have h' : r ≤ (0.7 : ℝ) := by norm_num; exact h
+  rw [if_pos h']
+  simp only [Distr.pow]
+  norm_num
+  ring
+
+theorem source4_right (r : ℝ) (h : 7 / 10 < r) :
+    source4 r = -2037 / 50 + 3889 / 25 * r - 18889 / 100 * r ^ 2 + 7407 / 100 * r ^ 3 := by
+  unfold source4
+  have h' : ¬ r ≤ (0.7 : ℝ) := by norm_num; exact h
+  rw [if_neg h']
+  simp only [Distr.pow]
+  norm_num
+  ring
+
+theorem proj4_left (x : ℝ) (h : x ≤ 7 / 10) :
+    proj4 x = 1134431 / 50000 * Real.sqrt (49 / 100 - x ^ 2) - (37778 / 300 - 111115 / 1000) * Real.sqrt (1 - x ^ 2)
+      + (217557 / 1000 * Real.sqrt (49 / 100 - x ^ 2) - (75556 / 300 - 555525 / 10000) * Real.sqrt (1 - x ^ 2)) * x ^ 2
+      + 3889 / 25 * x ^ 2 * Real.log ((1 + Real.sqrt (1 - x ^ 2)) / (7 / 10 + Real.sqrt (49 / 100 - x ^ 2)))
+      + x ^ 4 * (555525 / 10000 * Real.log ((1 + Real.sqrt (1 - x ^ 2)) / x)
+          - 5949 / 100 * Real.log ((7 / 10 + Real.sqrt (49 / 100 - x ^ 2)) / x)) := by
+  unfold proj4
+  have h' : x ≤ (0.7 : ℝ) := by norm_num; exact h
+  simp only [if_pos h', Distr.pow, Profiles.a, Profiles.n, sqrt_real, log_real]
+  norm_num
+  have e1 : (1 : ℝ) - x * x = 1 - x ^ 2 := by ring
+  have e2 : (49 / 100 : ℝ) - x * x = 49 / 100 - x ^ 2 := by ring
+  simp only [e1, e2]
+  ring
+
+theorem proj4_right (x : ℝ) (h : 7 / 10 < x) :
+    proj4 x = -(37778 / 300 - 111115 / 1000) * Real.sqrt (1 - x ^ 2) - (75556 / 300 - 555525 / 10000) * Real.sqrt (1 - x ^ 2) * x ^ 2
+      + x ^ 2 * (3889 / 25 + 555525 / 10000 * x ^ 2) * Real.log ((1 + Real.sqrt (1 - x ^ 2)) / x) := by
+  unfold proj4
+  have h' : ¬ x ≤ (0.7 : ℝ) := by norm_num; exact h
+  simp only [if_neg h', Distr.pow, Profiles.a, Profiles.n, sqrt_real, log_real]
+  norm_num
+  have e1 : (1 : ℝ) - x * x = 1 - x ^ 2 := by ring
+  simp only [e1]
+  ring
+
+/-- **profile 4** (two cubic pieces with the published decimal coefficients, break at 0.7; the source jumps there, which the
+    line-of-sight integral does not see) -/
+theorem profile4_pair (x : ℝ) (h0 : 0 < x) (h1 : x < 1) :
+    proj4 x = Abel (fun r => if 0 ≤ r ∧ r < 1 then source4 r else 0) x := by
+  have hsrc : ∀ r : ℝ, r ≠ 7 / 10 → (if 0 ≤ r ∧ r < 1 then source4 r else 0)
+      = piece 4 (cvec [1 / 10, 0, 551 / 100, -21 / 4]) 0 (7 / 10) r
+          + piece 4 (cvec [-2037 / 50, 3889 / 25, -18889 / 100, 7407 / 100]) (7 / 10) 1 r := by
+    intro r hne
+    unfold piece
+    simp only [evalN, cvec, sumRange, Distr.pow]
+    by_cases hr0 : 0 ≤ r
+    · by_cases hr1 : r < 1
+      · rcases lt_or_gt_of_ne hne with hlt | hgt
+        · have : ¬ (7 / 10 ≤ r ∧ r < 1) := fun h => absurd h.1 (not_le.mpr hlt)
+          rw [if_pos ⟨hr0, hr1⟩, if_pos ⟨hr0, hlt⟩, if_neg this, source4_left r hlt.le]
+          norm_num; ring
+        · have : ¬ (0 ≤ r ∧ r < 7 / 10) := fun h => absurd h.2 (not_lt.mpr hgt.le)
+          rw [if_pos ⟨hr0, hr1⟩, if_neg this, if_pos ⟨hgt.le, hr1⟩, source4_right r hgt]
+          norm_num; ring
+      · have a1 : ¬ (0 ≤ r ∧ r < 1) := fun h => hr1 h.2
+        have a2 : ¬ (0 ≤ r ∧ r < 7 / 10) := fun h => hr1 (by linarith [h.2])
+        have a3 : ¬ (7 / 10 ≤ r ∧ r < 1) := fun h => hr1 h.2
+        rw [if_neg a1, if_neg a2, if_neg a3]; ring
+    · have a1 : ¬ (0 ≤ r ∧ r < 1) := fun h => hr0 h.1
+      have a2 : ¬ (0 ≤ r ∧ r < 7 / 10) := fun h => hr0 h.1
+      have a3 : ¬ (7 / 10 ≤ r ∧ r < 1) := fun h => hr0 (by linarith [h.1])
+      rw [if_neg a1, if_neg a2, if_neg a3]; ring
+  rw [abel_congr_except (7 / 10) x hsrc, abel_two_pieces 4 4 _ _ 0 (7 / 10) 1 x le_rfl (by norm_num) (by norm_num)]
+  have hp : (0 : ℝ) < 1 * 1 - x * x := by nlinarith
+  have hn : ¬ (0 : ℝ) < 0 * 0 - x * x := by nlinarith
+  have e1 : (1 : ℝ) - x * x = 1 - x ^ 2 := by ring
+  have e2 : (49 / 100 : ℝ) - x * x = 49 / 100 - x ^ 2 := by ring
+  rcases le_or_gt x (7 / 10) with hx | hx
+  · rw [abel_piece_le 4 _ 0 (7 / 10) x le_rfl (by norm_num) h0.le hx,
+      abel_piece 4 _ (7 / 10) 1 x (by norm_num) (by norm_num) h0.le h1, proj4_left x hx]
+    have hq : (0 : ℝ) ≤ 7 / 10 * (7 / 10) - x * x := by nlinarith
+    have hnl : ¬ (7 / 10 : ℝ) < x := not_lt.mpr hx
+    simp only [polyAbelAt, sumRange, abelA, abelC, cvec, Distr.pow, sqrt0_pos hp, sqrt0_npos hn,
+      sqrt0_of_nonneg hq, if_pos h0, if_neg hnl]
+    have hs1 : 0 ≤ Real.sqrt (1 * 1 - x * x) := Real.sqrt_nonneg _
+    have hs5 : 0 ≤ Real.sqrt (7 / 10 * (7 / 10) - x * x) := Real.sqrt_nonneg _
+    rw [ln0_pos (by positivity), ln0_pos (by positivity), ln0_pos (by linarith)]
+    have hs1' : 0 ≤ Real.sqrt (1 - x ^ 2) := Real.sqrt_nonneg _
+    have hs5' : 0 ≤ Real.sqrt (49 / 100 - x ^ 2) := Real.sqrt_nonneg _
+    rw [Real.log_div (by positivity) (by positivity), Real.log_div (by positivity) h0.ne', Real.log_div (by positivity) h0.ne']
+    norm_num [sumRange, abelC, Distr.pow]
+    simp only [e1, e2]
+    ring
+  · rw [abel_piece_of_ge 4 _ 0 (7 / 10) x le_rfl (by norm_num) hx.le,
+      abel_piece 4 _ (7 / 10) 1 x (by norm_num) (by norm_num) h0.le h1, proj4_right x hx]
+    have hq : ¬ (0 : ℝ) < 7 / 10 * (7 / 10) - x * x := by nlinarith
+    simp only [polyAbelAt, sumRange, abelA, abelC, cvec, Distr.pow, sqrt0_pos hp,
+      sqrt0_npos hq, if_pos hx]
+    have hs1 : 0 ≤ Real.sqrt (1 * 1 - x * x) := Real.sqrt_nonneg _
+    rw [ln0_pos (by positivity), ln0_pos (by linarith)]
+    have hs1' : 0 ≤ Real.sqrt (1 - x ^ 2) := Real.sqrt_nonneg _
+    rw [Real.log_div (by positivity) h0.ne']
+    norm_num [sumRange, abelC, Distr.pow]
+    simp only [e1]
     ring
 
 /-- non-vacuity: at x = 1/2 the coded projection of the unit disc is the chord √3 -/
